@@ -39,6 +39,7 @@ type Ctx struct {
 	storesTo   map[*ssa.Global]bool // globals stored to outside init
 	frozenMemo map[*ssa.Global][]string
 	hwMemo     map[*ssa.Function]map[string]types.Type
+	gwMemo     map[*ssa.Function]map[*ssa.Global]bool
 	funcsByKey map[string]*ssa.Function
 	repoDir    string
 }
@@ -419,6 +420,99 @@ func (c *Ctx) heapWrites(u *Unit, fn *ssa.Function, depth int) (map[string]types
 		out["*"] = nil
 	}
 	return out, all
+}
+
+// globalWrites: the package-level variables fn may assign - those named by the assigns clause of
+// its contract, or (no contract) those stored to by its body and, transitively, its callees.
+func (c *Ctx) globalWrites(u *Unit, fn *ssa.Function, depth int) map[*ssa.Global]bool {
+	if c.gwMemo == nil {
+		c.gwMemo = map[*ssa.Function]map[*ssa.Global]bool{}
+	}
+	if m, ok := c.gwMemo[fn]; ok {
+		return m
+	}
+	out := map[*ssa.Global]bool{}
+	c.gwMemo[fn] = out
+	if con := c.contractFor(fn); con != nil && !con.Inline {
+		c.assignGlobals(con, fn, out)
+		return out
+	}
+	if con := c.externs[c.fullKey(fn)]; con != nil {
+		c.assignGlobals(con, fn, out)
+		return out
+	}
+	if fn.Blocks == nil || !c.inRepo(fn) || depth > 6 {
+		return out
+	}
+	cells := map[*cellKey]bool{}
+	heaps := map[string]types.Type{}
+	for _, b := range fn.Blocks {
+		for _, ins := range b.Instrs {
+			switch x := ins.(type) {
+			case *ssa.Store:
+				u.writeTarget(nil, x.Addr, cells, heaps, out)
+			case ssa.CallInstruction:
+				cc := x.Common()
+				if cc.IsInvoke() {
+					if con := c.externs[c.ifaceKey(cc)]; con != nil {
+						c.assignGlobals(con, nil, out)
+					}
+					continue
+				}
+				if callee := cc.StaticCallee(); callee != nil {
+					for g := range c.globalWrites(u, callee, depth+1) {
+						out[g] = true
+					}
+				} else if fk := fieldFuncKey(cc.Value); fk != "" && c.externs[fk] != nil {
+					c.assignGlobals(c.externs[fk], nil, out)
+				}
+			}
+		}
+	}
+	return out
+}
+
+// assignGlobals: the package-level variables at the root of a contract's assigns clause.
+func (c *Ctx) assignGlobals(con *Contract, fn *ssa.Function, out map[*ssa.Global]bool) {
+	if con.Pkg == nil {
+		return
+	}
+	params := map[string]bool{}
+	for _, n := range con.paramNames(fn) {
+		params[n] = true
+	}
+	for _, n := range con.resultNames(fn) {
+		params[n] = true
+	}
+	for _, a := range con.Assigns {
+		x := a
+	root:
+		for {
+			switch n := x.(type) {
+			case *ast.ParenExpr:
+				x = n.X
+			case *ast.SelectorExpr:
+				x = n.X
+			case *ast.IndexExpr:
+				x = n.X
+			case *ast.StarExpr:
+				x = n.X
+			case *ast.SliceExpr:
+				x = n.X
+			default:
+				break root
+			}
+		}
+		id, ok := x.(*ast.Ident)
+		if !ok || params[id.Name] {
+			continue
+		}
+		if o, ok := con.Pkg.Types.Scope().Lookup(id.Name).(*types.Var); ok {
+			if g := c.globalOf(o); g != nil {
+				out[g] = true
+			}
+		}
+	}
 }
 
 // assignHeaps computes the heap maps named by a contract's assigns clause (statically typed).
